@@ -5,6 +5,7 @@
       list of decodable OXM TLVs / instructions
     * `FsRec` : one `ofp_flow_stats` record (fixed fields, match, instructions); `flowStats_record` decodes it
     * `flowStats_reply` : a multipart reply of type OFPMP_FLOW with any list of records
+    * `flowStats_reply_flag_err` : a record whose match decoder reports an error ends the reply with that error
   Used by OFV/Props/C04b.lean.
 -/
 import OFV.Model.All
@@ -308,76 +309,102 @@ theorem flowStats_reply_instr_panic (xid : UInt32) (mpFlags : UInt16) (r : FsRec
   rw [Sw.msgLoopW_panic _ _ _ _ _ (by simp; omega) (by simp only [h1, Res.bind_ok, hrec]; rfl)]
   rfl
 
-/-- a multipart flow-stats reply with TWO records where the match decoder reports an error for the FIRST record (`e1 = true`,
-    `r1.mv` = the fields read up to there) but its `Len()` happens to equal the size of the match on the wire: the error
-    flag is overwritten by the second record's, Parse returns success, and the first record carries the truncated match -/
-theorem flowStats_reply_two_flag (xid : UInt32) (mpFlags : UInt16) (r1 r2 : FsRec) (e1 : Bool)
-    (hm1 : ∀ (a b : V) (dm : Slice), dm.WF → ∀ rest, dm.bytes = r1.mb ++ rest →
-      Match.unmarshalP (.obj "Match" [a, b, .list []]) dm = .ok (r1.mv, e1))
-    (ml1 : UInt16) (hml1 : Match.lenM r1.mv = .ok (ml1, r1.mv)) (hmlen1 : ml1.toNat = r1.mb.length)
-    (hi1 : InstrsDec r1.ib r1.iv) (h2 : r2.OK) (hsize : 16 + (r1.size + r2.size) < 65536)
-    (depth : Nat) (s : Slice) (hwf : s.WF)
-    (hb : s.bytes = [4, 19] ++ (be16 (UInt16.ofNat (16 + (r1.size + r2.size))) ++ (be32 xid ++ (be16 1 ++ (be16 mpFlags ++
-      (zeros 4 ++ (r1.bytes ++ r2.bytes))))))) :
-    parse depth s = .ok (.obj "MultipartReply" [.obj "Header" [.num 4, .num 19, .num (16 + (r1.size + r2.size)),
-      .num xid.toNat], .num 1, .num mpFlags.toNat, .bytes [], .list [r1.val, r2.val]]) := by
-  obtain ⟨k, hk⟩ := Sw.parse_step depth s
-  have hs1 : r1.size = 48 + r1.mb.length + r1.ib.length := rfl
-  have hs2 : r2.size = 48 + r2.mb.length + r2.ib.length := rfl
-  have hl : s.len = 16 + (r1.size + r2.size) := by
-    rw [← Sw.bytes_length s hwf, hb]; simp [FsRec.bytes_length]; omega
-  obtain ⟨d1, g1, hd1wf, _, hd1⟩ := Sw.fromR_at s hwf 16 (by omega)
-  obtain ⟨d2, g2, hd2wf, _, hd2⟩ := Sw.fromR_at s hwf (16 + r1.size) (by omega)
-  rw [hb] at hd1 hd2
-  have hd1' : d1.bytes = r1.bytes ++ r2.bytes := hd1
-  have hd2' : d2.bytes = r2.bytes ++ [] := by
-    rw [hd2, ← List.drop_drop, List.append_nil]
-    show List.drop r1.size (r1.bytes ++ r2.bytes) = _
-    rw [← FsRec.bytes_length]; simp
-  obtain ⟨hi1a, ls1, hls1, hsum1⟩ := hi1
-  have hdrop1 : d1.bytes.drop (48 + r1.mb.length) = r1.ib ++ r2.bytes := by
-    rw [hd1', FsRec.drop_match]
-  have hrec1 : FlowStats.unmarshalP FlowStats.new d1 = .ok (r1.val, e1) := by
-    rw [flowStats_record_preE r1 e1 hm1 ml1 hml1 hmlen1 (by omega) d1 hd1wf r2.bytes hd1',
-      show r1.size = 48 + r1.mb.length + r1.ib.length from rfl, hi1a d1 hd1wf _ _ hdrop1]
-    rfl
-  have hlen1 : anyLenM r1.val = .ok (UInt16.ofNat r1.size, r1.val) := by
-    have hltot : ((48 : UInt16) + ml1 + sum16 ls1) = UInt16.ofNat r1.size := by
-      apply UInt16.toNat_inj.mp
-      rw [Sw.ofNat16_toNat _ (by omega), UInt16.toNat_add, UInt16.toNat_add, hmlen1, hsum1]
-      show ((48 + r1.mb.length) % 65536 + r1.ib.length) % 65536 = _
+theorem msgLoopW_err {σ} (f : Nat) (cond : σ → Bool) (cursor : σ → Nat) (body : σ → R σ) (s : σ)
+    (hc : cond s = true) (hb : body s = .err) : msgLoopW (f + 1) cond cursor body s = .err := by
+  unfold msgLoopW
+  simp only [hc, if_true, hb]
+
+/-- the record loop over a list of decodable flow-stats records that are FOLLOWED by further bytes (`rest`) inside the
+    reply: the loop arrives behind them with their values appended -/
+theorem records_prefix (s : Slice) (hwf : s.WF) (body : MultipartReply.St → R MultipartReply.St)
+    (hbody : ∀ (st : MultipartReply.St) (d : Slice) (r r' : V) (l : UInt16), s.fromR st.n = .ok d →
+      FlowStats.unmarshalP FlowStats.new d = .ok (r, false) → anyLenM r = .ok (l, r') → l ≠ 0 →
+      body st = .ok { n := st.n + l.toNat, body := st.body ++ [r'], err := false })
+    (rs : List FsRec) (h : ∀ r ∈ rs, r.OK) (n : Nat) (acc : List V) (f limit : Nat) (rest : Bytes)
+    (hb : s.bytes.drop n = recsBytes rs ++ rest) (hln : n + (recsBytes rs).length < limit) :
+    msgLoopW (σ := MultipartReply.St) (rs.length + f) (fun st => st.n < limit) (·.n) body { n := n, body := acc, err := false }
+    = msgLoopW f (fun st => st.n < limit) (·.n) body
+        { n := n + (recsBytes rs).length, body := acc ++ rs.map FsRec.val, err := false } := by
+  induction rs generalizing n acc with
+  | nil => simp [recsBytes]
+  | cons r rs ih =>
+    have hok := h r (by simp)
+    rw [recsBytes_cons, List.append_assoc] at hb
+    rw [recsBytes_cons, List.length_append, FsRec.bytes_length] at hln
+    have hsz : r.size = 48 + r.mb.length + r.ib.length := rfl
+    have hnl : n + (r.bytes ++ (recsBytes rs ++ rest)).length = s.len := by
+      have := congrArg List.length hb
+      rw [List.length_drop, Sw.bytes_length s hwf] at this
+      have h48 : 0 < (r.bytes ++ (recsBytes rs ++ rest)).length := by
+        rw [List.length_append, FsRec.bytes_length]
+        omega
       omega
-    unfold FsRec.val
-    rw [Sw.anyLenM_flowStats]
-    unfold FlowStats.lenM
-    simp only [hml1, hls1, Res.bind_ok, hltot]
+    obtain ⟨d, e1, hdwf, _, hd⟩ := Sw.fromR_at s hwf n (by omega)
+    rw [hb] at hd
+    obtain ⟨hrec, hrlen⟩ := flowStats_record r hok d hdwf (recsBytes rs ++ rest) hd
+    have hl16 : (UInt16.ofNat r.size).toNat = r.size := Sw.ofNat16_toNat _ hok.2.2
+    have hne : UInt16.ofNat r.size ≠ 0 := by
+      intro h0'
+      have := congrArg UInt16.toNat h0'
+      rw [hl16] at this
+      have h00 : (0 : UInt16).toNat = 0 := rfl
+      omega
+    have hfu : (r :: rs).length + f = (rs.length + f) + 1 := by simp; omega
+    rw [hfu, Sw.msgLoopW_step _ _ _ _ _ ⟨n + r.size, acc ++ [r.val], false⟩
+        (by simp; omega)
+        (by rw [hbody ⟨n, acc, false⟩ d r.val r.val _ e1 hrec hrlen hne, hl16])
+        (by show n < n + r.size; omega)]
+    rw [ih (fun q hq => h q (by simp [hq])) (n + r.size) (acc ++ [r.val])
+      (by
+        rw [← List.drop_drop, hb, ← FsRec.bytes_length]
+        simp)
+      (by omega)]
+    rw [recsBytes_cons, List.length_append, FsRec.bytes_length]
+    simp [Nat.add_assoc]
+
+/-- a multipart flow-stats reply in which — after ANY list of decodable records — comes a record whose match decoder
+    reports an error (`r1.mv` = the fields read up to there, whose `Len()` equals the size of the match on the wire, so
+    that the instruction loop still finds the instructions): the record loop returns that error at once, whatever
+    follows the record (`tail`), and Parse rejects the reply -/
+theorem flowStats_reply_flag_err (xid : UInt32) (mpFlags len : UInt16) (rs : List FsRec) (h : ∀ r ∈ rs, r.OK) (r1 : FsRec)
+    (hm1 : ∀ (a b : V) (dm : Slice), dm.WF → ∀ rest, dm.bytes = r1.mb ++ rest →
+      Match.unmarshalP (.obj "Match" [a, b, .list []]) dm = .ok (r1.mv, true))
+    (ml1 : UInt16) (hml1 : Match.lenM r1.mv = .ok (ml1, r1.mv)) (hmlen1 : ml1.toNat = r1.mb.length)
+    (hi1 : InstrsDec r1.ib r1.iv) (hsize1 : r1.size < 65536) (tail : Bytes)
+    (hlen : 16 + (recsBytes rs).length < len.toNat) (depth : Nat) (s : Slice) (hwf : s.WF)
+    (hb : s.bytes = [4, 19] ++ (be16 len ++ (be32 xid ++ (be16 1 ++ (be16 mpFlags ++
+      (zeros 4 ++ (recsBytes rs ++ (r1.bytes ++ tail)))))))) :
+    parse depth s = .err := by
+  obtain ⟨k, hk⟩ := Sw.parse_step depth s
+  have hge := recsBytes_len_ge rs
+  have hlt := len.toNat_lt
+  have hs1 : r1.size = 48 + r1.mb.length + r1.ib.length := rfl
+  have hl : s.len = 16 + ((recsBytes rs).length + (r1.size + tail.length)) := by
+    rw [← Sw.bytes_length s hwf, hb]; simp [FsRec.bytes_length]; omega
+  have hdrop : s.bytes.drop 16 = recsBytes rs ++ (r1.bytes ++ tail) := by rw [hb]; rfl
+  obtain ⟨d1, g1, hd1wf, _, hd1⟩ := Sw.fromR_at s hwf (16 + (recsBytes rs).length) (by omega)
+  have hd1' : d1.bytes = r1.bytes ++ tail := by
+    rw [hd1, ← List.drop_drop, hdrop]; simp
+  obtain ⟨hi1a, ls1, hls1, hsum1⟩ := hi1
+  have hdrop1 : d1.bytes.drop (48 + r1.mb.length) = r1.ib ++ tail := by
+    rw [hd1', FsRec.drop_match]
+  have hrec1 : FlowStats.unmarshalP FlowStats.new d1 = .ok (r1.val, true) := by
+    rw [flowStats_record_preE r1 true hm1 ml1 hml1 hmlen1 hsize1 d1 hd1wf tail hd1', hs1, hi1a d1 hd1wf _ _ hdrop1]
     rfl
-  obtain ⟨hrec2, hlen2⟩ := flowStats_record r2 h2 d2 hd2wf [] hd2'
-  have hne1 : ¬ UInt16.ofNat r1.size = 0 := by
-    intro h0
-    have := congrArg UInt16.toNat h0
-    rw [Sw.ofNat16_toNat _ (by omega)] at this
-    have h00 : (0 : UInt16).toNat = 0 := rfl
-    omega
-  have hne2 : ¬ UInt16.ofNat r2.size = 0 := by
-    intro h0
-    have := congrArg UInt16.toNat h0
-    rw [Sw.ofNat16_toNat _ (by omega)] at this
-    have h00 : (0 : UInt16).toNat = 0 := rfl
-    omega
   have hty : ∀ d, MultipartReply.decodeRecord (1 : UInt16).toNat d = FlowStats.unmarshalP FlowStats.new d := fun _ => rfl
+  have hfuel : (65537 : Nat) = rs.length + ((65536 - rs.length) + 1) := by omega
   rw [hk, Sw.step_multipartReply _ s (Sw.byteAt_at s 1 19 _ (by rw [hb]; rfl))]
   unfold MultipartReply.unmarshalWith MultipartReply.zero msgTryU
-  simp only [Sw.header_at _ s hwf 4 19 _ xid _ hb, Res.bind_ok,
+  simp only [Sw.header_at _ s hwf 4 19 len xid _ hb, Res.bind_ok,
     Sw.u16From_at s 8 1 _ (by rw [hb]; rfl),
-    Sw.u16From_at s 10 mpFlags _ (by rw [hb]; rfl), Header.length, Sw.ofNat16_toNat _ hsize]
-  rw [Sw.msgLoopW_step _ _ _ _ _ ⟨16 + r1.size, [r1.val], e1⟩ (by simp; omega)
-      (by simp only [g1, Res.bind_ok, hty, hrec1, hlen1, if_neg hne1, Sw.ofNat16_toNat _ (show r1.size < 65536 by omega)]; rfl)
-      (by show 16 < 16 + r1.size; omega),
-    Sw.msgLoopW_step _ _ _ _ _ ⟨16 + r1.size + r2.size, [r1.val, r2.val], false⟩ (by simp; omega)
-      (by simp only [g2, Res.bind_ok, hty, hrec2, hlen2, if_neg hne2, Sw.ofNat16_toNat _ (show r2.size < 65536 by omega)]; rfl)
-      (by show 16 + r1.size < 16 + r1.size + r2.size; omega),
-    Sw.msgLoopW_stop _ _ _ _ _ (by simp; omega)]
+    Sw.u16From_at s 10 mpFlags _ (by rw [hb]; rfl), Header.length]
+  rw [hfuel, records_prefix s hwf _
+    (by
+      intro st d r r' l h1 h2 h3 h4
+      simp only [h1, Res.bind_ok, hty, h2, h3, if_neg h4]
+      rfl)
+    rs h 16 [] _ _ (r1.bytes ++ tail) hdrop (by simpa using hlen),
+    msgLoopW_err _ _ _ _ _ (by simpa using hlen) (by simp only [g1, Res.bind_ok, hty, hrec1]; rfl)]
   rfl
 
 end OFV.Sw2
